@@ -83,6 +83,11 @@ def world():
     if _WORLD is not None:
         return _WORLD
     from krrood.adapters.json_serializer import SubclassJSONSerializer, JSONSerializableTypeRegistry
+    # registry history: the singleton is cleared once and krrood's own uuid.UUID registration is repeated on the new instance;
+    # everything the harness registers below goes to (and must be read from) the new instance
+    from krrood.adapters.json_serializer import serialize_uuid, deserialize_uuid
+    JSONSerializableTypeRegistry.clear_instance()
+    JSONSerializableTypeRegistry().register(uuid.UUID, serialize_uuid, deserialize_uuid)
     pk = types.ModuleType("c19w")
     pk.__path__ = []  # a package, so that c19w.sub / c19w.nosuch are looked up (and not found) below it
     sub = types.ModuleType("c19w.sub")
@@ -538,7 +543,7 @@ def run(tier: str, seed: int, replay=None) -> int:
                   "exceptions raised by executing a broken third-party module are outside the model",
                   "module-level __getattr__ hooks and metaclass __subclasscheck__ overrides that raise are outside the model",
                   "what target_cls._from_json / a registered deserialiser does with a resolvable tag is user code (C18)"]
-    rep.rule = ("exhaustive tag table: every JSON type incl. falsy values of each, '', dots at every position of 5 names (one of a nested class), modules that exist but fail on a missing dependency of their own, a type registered after a first refused from_json, nested-class tags and attribute paths through classes / non-classes (X.__base__, X.method.y, f.<locals>.L), names of modules / "
+    rep.rule = ("exhaustive tag table: every JSON type incl. falsy values of each, '', dots at every position of 5 names (one of a nested class), modules that exist but fail on a missing dependency of their own, a type registered after a first refused from_json, all registrations made after JSONSerializableTypeRegistry.clear_instance(), nested-class tags and attribute paths through classes / non-classes (X.__base__, X.method.y, f.<locals>.L), names of modules / "
                 "functions / TypeVars / constants / instances / plain, registered, metaclass and abstract classes in the standard library, krrood and "
                 "two synthetic modules; plus seeded random splices (150 quick / 3000 thorough); thorough adds every attribute name of "
                 f"{len(SAFE_MODULES)} modules; distinct = distinct tag; every case is non-trivial (has its own expected outcome)")
